@@ -7,6 +7,7 @@ import (
 
 	ike "github.com/free5gc/ike"
 	"github.com/free5gc/ike/message"
+	"github.com/free5gc/ike/security"
 
 	"verif/mc/engine"
 	"verif/mc/ref"
@@ -25,6 +26,38 @@ type c01Case struct {
 	ParseH  bool    `json:"parsed_header"`
 	Env     []int   `json:"env,omitempty"` // choice prefix for the random-source seam
 	Fits    bool    `json:"fits"`
+	Warm    int     `json:"warm"` // 0: fresh key objects; 1/2: both key objects first carry a long / an empty message (history on one SA)
+}
+
+// warmMsg is the message a "used" SA has carried before the case under test.
+func warmMsg(w int) ref.Msg {
+	m := ref.Msg{H: univ.BaseHdr}
+	m.H.MsgID = 77
+	if w == 1 {
+		m.P = []ref.Payload{{T: ref.PCERT, B: 4, Data: univ.Pat(300, 12)}, {T: ref.PKE, Group: 14, Data: univ.Pat(256, 11)}, {T: ref.PNonce, Data: univ.Pat(61, 3)}}
+	}
+	return m
+}
+
+// warmUp makes sender and receiver key objects carry one message in the given direction.
+func warmUp(saS, saR *security.IKESAKey, senderI bool, w int) error {
+	if w == 0 {
+		return nil
+	}
+	lm, err := univ.Build(warmMsg(w))
+	if err != nil {
+		return err
+	}
+	seam := engine.NewSeam(nil, nil)
+	seam.Stream = 999
+	restore := engine.Install(seam)
+	b, err := ike.EncodeEncrypt(lm, saS, roleOf(senderI))
+	restore()
+	if err != nil {
+		return err
+	}
+	_, err = ike.DecodeDecrypt(b, nil, saR, roleOf(!senderI))
+	return err
 }
 
 func roleOf(initiator bool) message.Role {
@@ -75,6 +108,9 @@ func runC01(c *engine.Ctx) {
 				for _, sI := range []bool{true, false} {
 					for _, ph := range []bool{false, true} {
 						evalC01(c, c01Case{K: "rt", Name: name, M: m, Suite: si, Pattern: pat, SenderI: sI, ParseH: ph, Fits: true})
+						if pat == 2 {
+							evalC01(c, c01Case{K: "rt", Name: name, M: m, Suite: si, Pattern: pat, SenderI: sI, ParseH: ph, Fits: true, Warm: 1 + (si+b2int(sI)+b2int(ph))%2})
+						}
 					}
 				}
 			}
@@ -98,6 +134,20 @@ func runC01(c *engine.Ctx) {
 			}
 		}
 	})
+	// the protected form around the 16-bit limit of the SK payload: every inner length in a window
+	// around the largest one that still fits, all suites, both roles
+	for inner := 65466; inner <= 65496; inner++ {
+		for si := 0; si < 9; si++ {
+			if !c.Mine() {
+				continue
+			}
+			m := ref.Msg{H: univ.BaseHdr, P: []ref.Payload{{T: ref.PNonce, Data: univ.Pat(inner-4, inner)}}}
+			icv := ref.Suites()[si].Integ.OutLen
+			for _, sI := range []bool{true, false} {
+				evalC01(c, c01Case{K: "rt", Name: fmt.Sprintf("protected.inner=%d", inner), M: m, Suite: si, Pattern: 2, SenderI: sI, ParseH: inner%2 == 0, Fits: protectedFits(m, icv)})
+			}
+		}
+	}
 	i := 0
 	univ.Sweeps(c.Thorough(), func(name string, m ref.Msg, fits bool) {
 		i++
@@ -176,6 +226,13 @@ func evalC01env(c *engine.Ctx, cs c01Case, r *engine.Run) {
 		c.Violate("sa-construction", fmt.Sprintf("%v %v", err1, err2), cs)
 		return
 	}
+	if cs.Warm != 0 {
+		var werr error
+		if pi := engine.Catch(func() { werr = warmUp(saS, saR, cs.SenderI, cs.Warm) }); pi != nil || werr != nil {
+			c.Violate("warm-up-failed", fmt.Sprintf("%v %v", pi, werr), cs)
+			return
+		}
+	}
 	lm, err := univ.Build(m)
 	if err != nil {
 		c.Violate("build-error", errStr(err), cs)
@@ -216,6 +273,9 @@ func evalC01env(c *engine.Ctx, cs c01Case, r *engine.Run) {
 	pi = engine.Catch(func() { got, err = ike.DecodeDecrypt(b, hdr, saR, roleOf(!cs.SenderI)) })
 	c.Traces++
 	tag := fmt.Sprintf("sender=%s/hdr=%v", map[bool]string{true: "I", false: "R"}[cs.SenderI], cs.ParseH)
+	if cs.Warm != 0 {
+		tag += "/used-sa"
+	}
 	if pi != nil {
 		c.Violate(pi.Sig(), fmt.Sprintf("DecodeDecrypt(%s, %v, %s) panics: %s", cs.Name, ks.Suite, tag, pi.Value), cs)
 		return
@@ -244,4 +304,11 @@ func evalC01env(c *engine.Ctx, cs c01Case, r *engine.Run) {
 		c.Count("env_deviating_executions", 1)
 	}
 	c.Sample("protected", map[string]interface{}{"name": cs.Name, "suite": ks.Suite.String(), "sender_initiator": cs.SenderI, "env": seam.Answers(), "wire": engine.Hex(trunc(b, 80))})
+}
+
+func b2int(b bool) int {
+	if b {
+		return 1
+	}
+	return 0
 }
